@@ -475,6 +475,11 @@ def mutations(b):
         out.append(_mut("both-range-kinds", {k: vals[k] for k in other}, note="full"))
         for k in other:
             out.append(_mut("both-range-kinds", {k: vals[k]}, note=f"plus {k} only"))
+        # a bound of 0 is a value, not "not given" ("Another groups must be None")
+        zeros = {"max_x_position": 0.0, "max_y_position": 0, "max_distance": 0.0, "min_distance": 0.0}
+        out.append(_mut("both-range-kinds", {k: zeros[k] for k in other}, note="full, zero-valued"))
+        for k in other:
+            out.append(_mut("both-range-kinds", {k: zeros[k]}, note=f"plus {k}=0 only"))
         out.append(_mut("no-range-kind", del_=RANGE_XY + RANGE_DIST))
         out.append(_mut("no-range-kind", {k: None for k in RANGE_XY + RANGE_DIST}, note="all None"))
         for k in have:
@@ -895,3 +900,42 @@ def metrics_params(ctx, d):
     params[d["extra"]] = [0.8]
     acc, obj = _try(lambda: MetricsScoreConfig(task, **params))
     ctx.require(not acc, "metrics-unknown-parameter-accepted", lambda: f"MetricsScoreConfig({d['task']}, ..., {d['extra']}=[0.8]) was accepted; docs: MetricsParameterError")
+
+
+# ------------------------------------------------------------------------------------------------
+# coverage-guided driving of the threshold oracle (atheris / libFuzzer): same body, bytes decoded into a specification
+# ------------------------------------------------------------------------------------------------
+
+
+def _decode_threshold_case(fdp):
+    n = fdp.ConsumeIntInRange(1, 6)
+    nest = fdp.ConsumeBool()
+    nums = [0, 1, 2, 3, 0.5, 1.0, 2.5, -1.0, 100.0]
+
+    def elem(depth):
+        k = fdp.ConsumeIntInRange(0, 11)
+        if k <= 5:
+            return nums[fdp.ConsumeIntInRange(0, len(nums) - 1)]
+        if k == 6:
+            return "a"
+        if k == 7:
+            return None
+        if depth >= 3:
+            return 1.0
+        length = fdp.ConsumeIntInRange(0, n + 2)
+        if k == 8:
+            length = 1
+        elif k == 9:
+            length = n
+        return [elem(depth + 1) for _ in range(length)]
+
+    if fdp.ConsumeIntInRange(0, 7) == 0:
+        spec = nums[fdp.ConsumeIntInRange(0, len(nums) - 1)]
+    else:
+        spec = [elem(1) for _ in range(fdp.ConsumeIntInRange(0, n + 2))]
+    return {"n": n, "nest": nest, "spec": spec}
+
+
+@CHECK.fuzz("thresholds_fuzz", _decode_threshold_case, quick=4000, thorough=400000, seeds=[b"\x02\x01\x01\x03\x09\x02\x01\x00\x01\x00", b"\x03\x00\x01\x02\x01\x00"])
+def thresholds_fuzz(ctx, d):
+    _threshold_body(ctx, d)
